@@ -64,6 +64,36 @@ Theorem C17_old_ctx_silent : old_ctx_silent_stmt true /\ old_ctx_no_callback_stm
 Proof. exact (conj old_ctx_silent_fixed old_ctx_no_callback_fixed). Qed.
 Print Assumptions C17_old_ctx_silent.
 
+(* uv_fs_poll_stop (hence uv_close, hence stop + start) called from another timer's callback while
+   the handle's interval timer is already in the ready queue of the running uv__run_timers pass:
+   nothing happens at stop time (the timer is inactive, it is not closed); the teardown happens at
+   the timer's own callback later in the same pass: a context whose handle is stopped, or which is
+   not the handle's current context any more, closes its timer there instead of submitting a stat
+   (/repo 56a9a49).  The trace theorems below quantify over scripts with timers of their own
+   ([OTimer]) whose callbacks stop / close / restart handles inside the pass. *)
+Theorem C17_stop_while_timer_in_ready_queue :
+  (forall s h c rest,
+   h_active (geth s h) = true -> h_chain (geth s h) = c :: rest -> c_timer (getc s c) = TReady ->
+   do_stop s h = upd_h s h (h_set_active false)) /\
+  (forall s c,
+   let h := c_parent (getc s c) in
+   h_active (geth s h) = false \/ is_head s h c = false ->
+   timer_fire true s c = close_timer s c).
+Proof. exact (conj stop_in_ready_state timer_cb_tears_down). Qed.
+Print Assumptions C17_stop_while_timer_in_ready_queue.
+
+(* the failing input of the repaired finding fs_poll_timer_cb_assert_after_restart_in_same_timer_pass on
+   the current model (no stat of the old path 0 after the restart, clean close) and on the history
+   variant (stray [EStat 0] after the restart; debug builds aborted in an assert there) *)
+Example C17_restart_inside_timer_pass :
+  snd (run true (init 1000) w_pass w_beh 0) =
+    [ERet 0; EStat 0; EIter; EIter; EUser 1; ERet 0; ERet 0; EStat 1; EIter; EIter; EIter;
+     EClosed 0 0; EFinal 0 0] /\
+  snd (run false (init 1000) w_pass w_beh 0) =
+    [ERet 0; EStat 0; EIter; EIter; EUser 1; ERet 0; ERet 0; EStat 1; EStat 0; EIter; EIter;
+     EFinal UV_EBUSY 1].
+Proof. exact w_pass_traces. Qed.
+
 (* History (before 834ed95): the same statement was false: start A; stop; start B while A's
    stat is in flight -- A's poll_cb saw an active handle, kept polling A's path and called A's
    callback.  Kept as the regression witness (corpus/C17/fspoll_known.txt replays it). *)
